@@ -370,7 +370,7 @@ class Builder:
             # a message without Subscribe entries (pure reboot evidence, or an Offer) is sent with the unicast flag CLEAR every other
             # time: its entries would be ignored anyway, but it is a received SD message - the reboot it reveals is applied
             flag_clear = (not a["entries"]) and len(self.script) % 2 == 0
-            a["data"] = net.sd_bytes(ents, sid, reboot=flag, unicast=not flag_clear)
+            a["data"] = net.sd_bytes(net.with_riders(ents, len(self.script) // 3), sid, reboot=flag, unicast=not flag_clear)
             for kk in [kk for kk, d in self.deadlines.items() if d != math.inf and d < t - RES]:
                 del self.deadlines[kk]
             if a.get("reboot"):
